@@ -19,8 +19,15 @@ RULE = ("models: d in {2,3} (and d = 4, where `mass` is the general recursion it
         "(theta in [0.3,4] or exactly 1, eta in (0,1)), independent, dependent. rectangles: every sign pattern per coordinate "
         "(negative side, positive side, straddling 0) forced in turn, end points log-uniform in [1e-3,1] or dyadic, +-inf ends "
         "with probability 0.12; dedicated sub-streams put end points / split points exactly at 0 and build boxes containing the "
-        "origin. index subsets: all non-empty I of the coordinates. non-trivial = finite non-zero mass terms; distinct = distinct "
-        "(probe, model spec, I, a, b)")
+        "origin. index subsets: all non-empty I of the coordinates. operation histories (d = 2, 3, 4): ONE live model object on which "
+        "blocks of evaluations (mass / _mass_nd of full-dimension rectangles with random sign patterns and of proper sub-families, "
+        "margin_tail_integral of any index subset, inverse_tail_integral) are interleaved with 1-3 re-configurations through public "
+        "attributes - `model.copula = <other copula object>` (same or other family) or in-place edits of theta / eta of the Clayton "
+        "copula it holds; afterwards every probe (non-negativity, additivity, fast = general, sub-family = whole-line = I-margin copula, "
+        "whole-line = marginal mass, inverse tail, Lean correspondence) runs on that live object against the configuration it holds "
+        "NOW, and c12.history compares its sub-family tail integrals with the I-margin - by definition - of model.copula and its masses "
+        "with a never-mutated model of the final configuration. non-trivial = finite non-zero mass terms; distinct = distinct "
+        "(probe, model spec, history, I, a, b)")
 NOT_PROVED = [
     "mass_nonneg is a theorem for d = 2 (mass2d_nonneg) and d = 3 (mass3d_nonneg_adm: all 26 sign patterns - orthant boxes, one and two "
     "straddling coordinates) from explicit hypotheses: the copula F is 2-/3-increasing (on boxes without an all-infinite corner), the sub-family "
@@ -36,8 +43,13 @@ NOT_PROVED = [
     "mass = integral of the implied joint density (x_first_derivative) is checked by quadrature only",
     "inverse_tail_integral is a bracketing root search (toms748): only its contract is oracle-checked",
     "that the closed-form marginal integrals are measures (additive, non-negative) is C09, assumed here through the abstract family U",
+    "the Lean model is a pure function of (marginal tail integrals, copula): that the implementation's answers depend only on the "
+    "configuration the object holds now - not on what was evaluated before `copula` was re-assigned or its parameters edited - is "
+    "oracle-checked on generated operation histories (c12.history and the ordinary probes run on the live object), not proved",
 ]
 ASSUMPTIONS = ["rectangles are half-open (a,b] with a < b in every coordinate",
+               "histories re-configure a live model only through `model.copula` and the copula's own parameters (valid values); re-assigning "
+               "`model.models` (the ctor derives dimension / marginal measures from it once) or truncating the margins is outside this check",
                "the implied joint density is read as nu_1(x) nu_2(y) * sign(u1 u2) * x_first_derivative(U_1(x), U_2(y)) (see C11: the code "
                "returns sign(prod u) times the mixed partial)"]
 TRUSTED = ["scipy.integrate.dblquad for the density check", "zoo.TableMeasure (exact piecewise-constant Levy density) as synthetic margin",
@@ -108,6 +120,78 @@ def get_model(spec):
             _CACHE.clear()
         _CACHE[key] = LevyCopulaModel(models=[make_margin(m) for m in spec["margins"]], copula=make_cop(spec["cop"]))
     return _CACHE[key]
+
+
+# ---- operation histories on ONE live model object -------------------------------------------------------------------------
+# hist = {"spec0": spec, "ops": [op, ...]};   op =
+#   ["mass", I, a, b] | ["mass_nd", I, a, b]     rectangle mass through the public entry point / the general recursion
+#   ["tail", I, x]                                margin_tail_integral of the sub-family I at x
+#   ["inv", i, y]                                 inverse_tail_integral
+#   ["copula", cd]                                model.copula = <new copula object>       (public attribute re-assigned)
+#   ["edit", {"theta": .., "eta": ..}]            in-place edit of the parameters of the copula object the model holds
+# The configuration a history ends in is (margins of spec0, final_cop(hist)).
+def final_cop(hist):
+    cur = dict(hist["spec0"]["cop"])
+    for op in hist["ops"]:
+        if op[0] == "copula":
+            cur = dict(op[1])
+        elif op[0] == "edit":
+            cur = dict(cur, **op[1])
+    return cur
+
+
+def final_spec(hist):
+    return dict(margins=hist["spec0"]["margins"], cop=final_cop(hist))
+
+
+def exec_op(model, op):
+    kind = op[0]
+    if kind == "copula":
+        model.copula = make_cop(op[1])
+        return
+    if kind == "edit":
+        for name, val in op[1].items():
+            setattr(model.copula, name, val)
+        return
+    if kind not in ("mass", "mass_nd", "tail", "inv"):
+        raise ValueError(f"unknown history op {kind}")
+    try:        # evaluations only build up the object's state; what they return is checked by the probes on the final object
+        if kind == "mass":
+            mass_fast(model, op[1], op[2], op[3])
+        elif kind == "mass_nd":
+            mass_general(model, op[1], op[2], op[3])
+        elif kind == "tail":
+            U(model, op[1], op[2])
+        else:
+            quiet(model.inverse_tail_integral, op[1], op[2])
+    except Exception:  # noqa
+        pass
+
+
+def build_live(hist):
+    """a new model object taken through the history (never shared with the cache of fresh objects)"""
+    spec0 = hist["spec0"]
+    model = LevyCopulaModel(models=[make_margin(m) for m in spec0["margins"]], copula=make_cop(spec0["cop"]))
+    for op in hist["ops"]:
+        exec_op(model, op)
+    return model
+
+
+_LIVE = {}
+
+
+def model_of(inp):
+    """the object a probe examines: a fresh model of inp['spec'], or - when the input carries a history - the live object that
+    went through it (inp['spec'] is then the configuration the history ends in: what the object must behave like)"""
+    hist = inp.get("hist")
+    if hist is None:
+        return get_model(inp["spec"])
+    key = repr(hist)
+    if key not in _LIVE:
+        if len(_LIVE) > 8:
+            _LIVE.clear()
+        _LIVE[key] = build_live(hist)
+    return _LIVE[key]
 
 
 def infinite_activity(ms):
@@ -235,7 +319,7 @@ def kind_of(model):
 def p_model_table(ctx, inp):
     """C: implementation (general and fast formula) vs M fed with the implementation's own tail integrals"""
     spec, I, a, b = inp["spec"], inp["I"], inp["a"], inp["b"]
-    model = get_model(spec)
+    model = model_of(inp)
     cls = classify(spec, I, a, b)
     try:
         g, f = mass_general(model, I, a, b), mass_fast(model, I, a, b)
@@ -264,7 +348,7 @@ def lean_cop_name(cd):
 def p_model_exact(ctx, inp):
     """C: TableMeasure margins + exactly computable copula: M computes margin_tail_integral itself from the marginal tail integrals"""
     spec, I, a, b = inp["spec"], inp["I"], inp["a"], inp["b"]
-    model = get_model(spec)
+    model = model_of(inp)
     d = model._dimension
     ti, tx, tv = [], [], []
     for i in range(d):
@@ -297,7 +381,7 @@ def mirrors(ctx, model, I, a, b, value):
 @guarded("c12.fast_vs_general")
 def p_fast_vs_general(ctx, inp):
     spec, I, a, b = inp["spec"], inp["I"], inp["a"], inp["b"]
-    model = get_model(spec)
+    model = model_of(inp)
     cls = classify(spec, I, a, b)
     try:
         g, f = mass_general(model, I, a, b), mass_fast(model, I, a, b)
@@ -317,7 +401,7 @@ def p_fast_vs_general(ctx, inp):
 @guarded("c12.nonneg")
 def p_nonneg(ctx, inp):
     spec, I, a, b = inp["spec"], inp["I"], inp["a"], inp["b"]
-    model = get_model(spec)
+    model = model_of(inp)
     cls = classify(spec, I, a, b)
     if cls["contains_origin"]:
         return
@@ -336,7 +420,7 @@ def p_nonneg(ctx, inp):
 @guarded("c12.additivity")
 def p_additivity(ctx, inp):
     spec, I, a, b, k, c = inp["spec"], inp["I"], inp["a"], inp["b"], inp["k"], inp["c"]
-    model = get_model(spec)
+    model = model_of(inp)
     cls = classify(spec, I, a, b)
     if cls["contains_origin"]:
         return
@@ -364,7 +448,7 @@ def p_additivity(ctx, inp):
 def p_margin(ctx, inp):
     """other coordinates over the whole line: the mass is the marginal Levy mass nu_k((a,b])"""
     spec, k, a, b = inp["spec"], inp["k"], inp["a"], inp["b"]
-    model = get_model(spec)
+    model = model_of(inp)
     d = model._dimension
     lo, hi = [-INF] * d, [INF] * d
     lo[k], hi[k] = a, b
@@ -389,7 +473,7 @@ def p_submargin(ctx, inp):
     """3-d model: the mass of the (i,j) sub-family = mass of the whole-line rectangle in the third coordinate
     = mass of the 2-d model built from margins i, j and the {i,j}-margin of the copula"""
     spec, I, a, b = inp["spec"], inp["I"], inp["a"], inp["b"]
-    model = get_model(spec)
+    model = model_of(inp)
     cls = classify(spec, I, a, b)
     if cls["contains_origin"]:
         return
@@ -408,12 +492,83 @@ def p_submargin(ctx, inp):
                                                   "sub": sub, "whole_line": whole, "two_d_model": two}, cls=cls)
 
 
+def i_margin_by_definition(model, I, pt):
+    """F^I(u_I) = sum over the other coordinates in {-inf, +inf} of F(u) * prod sgn, with the copula the model holds NOW
+    (model.copula, public) and the public marginal tail integrals - the definition, not the library's `margin` helper"""
+    d = model._dimension
+    comp = [i for i in range(d) if i not in I]
+    u = np.zeros(d)
+    for i, x in zip(I, pt):
+        u[i] = float(model.marginal_tail_integral(i, x))
+    tot = 0.0
+    for p in itertools.product([-INF, INF], repeat=len(comp)):
+        for i, v in zip(comp, p):
+            u[i] = v
+        sg = 1.0
+        for v in p:
+            sg *= (1.0 if v > 0 else -1.0)
+        tot += sg * float(quiet(model.copula, np.array(u)))
+    return tot
+
+
+def same_float(x, y, sc):
+    return (math.isnan(x) and math.isnan(y)) or x == y or abs(x - y) <= 1e-9 * sc
+
+
+@guarded("c12.history")
+def p_history(ctx, inp):
+    """one live object taken through inp['hist'] (evaluations interleaved with re-assignment of `copula` / in-place edits of the
+    copula's parameters): its masses and sub-family tail integrals are those of the configuration it holds NOW -
+    (i) sub-family tail integrals = I-margin, by definition, of the CURRENT model.copula at the marginal tail integrals,
+    (ii) mass (public entry point and general recursion) = the value on a never-mutated model built with the final configuration.
+    The live object is rebuilt from the history on every call: the record replays exactly."""
+    spec, hist, I, a, b = inp["spec"], inp["hist"], inp["I"], inp["a"], inp["b"]
+    live = build_live(hist)
+    fresh = get_model(spec)
+    cls = classify(spec, I, a, b)
+    muts = [op[0] for op in hist["ops"] if op[0] in ("copula", "edit")]
+    cls["history"] = True
+    d = live._dimension
+    ctx.count("c12.history", inp, branch=f"d{d}:I{len(I)}:" + "+".join(sorted(set(muts))))
+    # (o) the object holds the configuration the history ends in (harness self-check, not a statement about the library)
+    cop = live.copula
+    if spec["cop"]["cop"] == "clayton" and not (cop.theta == spec["cop"]["theta"] and cop.eta == spec["cop"]["eta"]):
+        raise RuntimeError("history bookkeeping: live copula parameters differ from final_cop(hist)")
+    # (i) sub-family tail integrals at the corners of the rectangle
+    if 2 <= len(I) < d:
+        for pt in itertools.product(*[(x, y) for x, y in zip(a, b)]):
+            if any(x == 0 for x in pt):
+                continue
+            got = U(live, I, pt)
+            want = i_margin_by_definition(live, I, pt)
+            sc = sum(abs(float(live.marginal_tail_integral(i, x))) for i, x in zip(I, pt) if math.isfinite(x)) + 1e-300
+            if not same_float(got, want, sc):
+                ctx.fail("oracle", "c12.history", inp, {"what": "after the history, margin_tail_integral(I, x) of the live model is not the "
+                                                                "I-margin of the copula it holds now", "x": list(pt), "live": got,
+                                                        "I_margin_of_current_copula": want, "current_copula": repr(cop)}, cls=cls)
+                return
+    # (ii) masses against a never-mutated model of the final configuration
+    try:
+        lf, lg = mass_fast(live, I, a, b), mass_general(live, I, a, b)
+    except Exception:
+        if not (cls["zero_end"] and cls["tail_at_zero_nonfinite"]):
+            raise
+        return
+    ff, fg = mass_fast(fresh, I, a, b), mass_general(fresh, I, a, b)
+    sc = scale_of(fresh, I, a, b)
+    if not (same_float(lf, ff, sc) and same_float(lg, fg, sc)):
+        ctx.fail("oracle", "c12.history", inp, {"what": "after the history, the mass on the live model differs from the mass of a freshly built "
+                                                        "model with the same margins and the copula the live model holds now",
+                                                "live_mass": lf, "fresh_mass": ff, "live_general": lg, "fresh_general": fg, "scale": sc,
+                                                "current_copula": repr(cop)}, cls=cls)
+
+
 @guarded("c12.whole_line_nd")
 def p_whole_line_nd(ctx, inp):
     """general recursion `_mass_nd`, any d (theorem massNd_whole_line): coordinate k over the whole line can be erased;
     by the theorem this holds for every tail-integral family, so a difference beyond rounding is a defect of the recursion"""
     spec, I, a, b, k = inp["spec"], inp["I"], inp["a"], inp["b"], inp["k"]
-    model = get_model(spec)
+    model = model_of(inp)
     a2, b2 = list(a), list(b)
     a2[k], b2[k] = -INF, INF
     Ie, ae, be = I[:k] + I[k + 1:], list(a[:k]) + list(a[k + 1:]), list(b[:k]) + list(b[k + 1:])
@@ -433,7 +588,7 @@ def p_additivity_nd(ctx, inp):
     """general recursion `_mass_nd`, any d and any index subset (theorem massNd_additive_split): additive under a split of
     side k at c != 0 -- for every rectangle, also boxes containing the origin as long as the values are finite"""
     spec, I, a, b, k, c = inp["spec"], inp["I"], inp["a"], inp["b"], inp["k"], inp["c"]
-    model = get_model(spec)
+    model = model_of(inp)
     bl, ar = list(b), list(a)
     bl[k], ar[k] = c, c
     whole, left, right = mass_general(model, I, a, b), mass_general(model, I, a, bl), mass_general(model, I, ar, b)
@@ -449,7 +604,7 @@ def p_additivity_nd(ctx, inp):
 @guarded("c12.inverse_tail")
 def p_inverse_tail(ctx, inp):
     spec, i, x0 = inp["spec"], inp["i"], inp["x"]
-    model = get_model(spec)
+    model = model_of(inp)
     y = float(model.marginal_tail_integral(i, x0))
     ctx.count("c12.inverse_tail", inp)
     if y == 0 or not math.isfinite(y):
@@ -471,7 +626,7 @@ def p_density(ctx, inp):
     """2-d Clayton, rectangle inside one open quadrant: mass = integral of nu_1 nu_2 * |x_first_derivative(U_1, U_2)|"""
     from scipy.integrate import dblquad
     spec, a, b = inp["spec"], inp["a"], inp["b"]
-    model = get_model(spec)
+    model = model_of(inp)
     nu1, nu2 = model._marginal_levy_measure
     cop = model.copula
 
@@ -491,7 +646,7 @@ def p_density(ctx, inp):
 PROBES = {"c12.model.table": p_model_table, "c12.model.exact": p_model_exact, "c12.fast_vs_general": p_fast_vs_general,
           "c12.nonneg": p_nonneg, "c12.additivity": p_additivity, "c12.margin": p_margin, "c12.submargin": p_submargin,
           "c12.inverse_tail": p_inverse_tail, "c12.density": p_density, "c12.whole_line_nd": p_whole_line_nd,
-          "c12.additivity_nd": p_additivity_nd}
+          "c12.additivity_nd": p_additivity_nd, "c12.history": p_history}
 
 
 # ------------------------------------------------------------------------------------------------ generation
@@ -572,6 +727,117 @@ def subsets(d):
     return [list(s) for k in range(1, d + 1) for s in itertools.combinations(range(d), k)]
 
 
+def draw_mutation(rng, cur, exact):
+    """one re-configuration of the live object: the public attribute `copula` re-assigned (same or other family), or - Clayton - the
+    parameters of the copula object it holds edited in place (theta, eta or both)"""
+    if cur["cop"] == "clayton" and rng.random() < 0.4:
+        if exact:
+            ed = dict(eta=rng.choice([k for k in range(1, 16) if k / 16 != cur["eta"]]) / 16)
+        else:
+            ed = {}
+            which = rng.choice(["theta", "eta", "both"])
+            if which != "eta":
+                ed["theta"] = round(math.exp(rng.uniform(math.log(0.3), math.log(4.0))), 3)
+            if which != "theta":
+                ed["eta"] = round(rng.uniform(0.05, 0.95), 3)
+        return ["edit", ed]
+    new = draw_cop(rng, exact)
+    for _ in range(8):
+        if new != cur:
+            break
+        new = draw_cop(rng, exact)
+    return ["copula", new]
+
+
+def draw_evaluations(rng, d, exact):
+    """a block of evaluations on the live object: full-dimension rectangles (random sign pattern, so straddling sides recurse into
+    sub-families), every kind of sub-family query, tail integrals and an inverse tail integral"""
+    ops = []
+    full = list(range(d))
+    proper = subsets(d)[:-1]
+    for _ in range(rng.randint(1, 3)):
+        pats = [rng.choice("-+0") for _ in range(d)]
+        if all(p == "0" for p in pats):
+            pats[rng.randrange(d)] = rng.choice("-+")
+        a, b = draw_rect(rng, pats, exact)
+        ops.append([rng.choice(["mass", "mass", "mass_nd"]), full, a, b])
+        Is = rng.choice(proper)
+        ops.append([rng.choice(["mass", "mass_nd"]), Is, [a[i] for i in Is], [b[i] for i in Is]])
+    for _ in range(rng.randint(1, 3)):
+        Is = rng.choice(proper + [full])
+        ops.append(["tail", Is, [draw_point(rng, rng.choice([-1, 1]), exact) for _ in Is]])
+    if rng.random() < 0.3:
+        ops.append(["inv", rng.randrange(d), rng.choice([-1, 1]) * round(rng.uniform(0.05, 3.0), 3)])
+    rng.shuffle(ops)
+    return ops
+
+
+def draw_history(rng, d, exact):
+    spec0 = draw_spec(rng, d, exact)
+    cur = dict(spec0["cop"])
+    ops = []
+    for _ in range(rng.choice([1, 1, 2, 3])):
+        if rng.random() < 0.9:      # (a mutation right after construction / right after another one is a history too)
+            ops += draw_evaluations(rng, d, exact)
+        mut = draw_mutation(rng, cur, exact)
+        ops.append(mut)
+        cur = dict(mut[1]) if mut[0] == "copula" else dict(cur, **mut[1])
+    if rng.random() < 0.5:
+        ops += draw_evaluations(rng, d, exact)
+    return dict(spec0=spec0, ops=ops)
+
+
+def run_histories(ctx, oracle_only, factor):
+    """operation histories on one live copula-model object; afterwards every statement of the property is examined on that object by
+    the same probes as on a fresh one (inp['hist'] makes a probe use the live object), plus c12.history"""
+    rng = ctx.rng
+    for rep in range(ctx.n(12, 90) * factor):
+        d = (3, 3, 2, 4)[rep % 4]
+        exact = (rep % 3 == 1)
+        hist = draw_history(rng, d, exact)
+        spec = final_spec(hist)
+        full = list(range(d))
+        # sign patterns: each number of straddling sides (0 .. d-1) at least once, the rest at random
+        pats_list = []
+        for nz in range(d):
+            pats = [rng.choice("-+") for _ in range(d)]
+            for k in rng.sample(range(d), nz):
+                pats[k] = "0"
+            pats_list.append(tuple(pats))
+        pats_list += [tuple(rng.choice("-+0") for _ in range(d)) for _ in range(2)]
+        for pats in pats_list:
+            if all(q == "0" for q in pats):
+                continue
+            a, b = draw_rect(rng, pats, exact)
+            inp = dict(spec=spec, hist=hist, I=full, a=a, b=b)
+            p_history(ctx, inp)
+            p_fast_vs_general(ctx, inp)
+            p_nonneg(ctx, inp)
+            if not oracle_only and (exact or rng.random() < 0.3):
+                (p_model_exact if exact else p_model_table)(ctx, inp)
+            k = rng.randrange(d)
+            c = split_point(rng, a[k], b[k], exact)
+            p_additivity(ctx, dict(inp, k=k, c=c))
+            if d == 4:
+                p_additivity_nd(ctx, dict(inp, k=k, c=c))
+                p_whole_line_nd(ctx, dict(inp, k=rng.randrange(d)))
+            for Is in rng.sample(subsets(d)[:-1], 2):
+                ai, bi = [a[i] for i in Is], [b[i] for i in Is]
+                sub = dict(spec=spec, hist=hist, I=Is, a=ai, b=bi)
+                p_history(ctx, sub)
+                p_fast_vs_general(ctx, sub)
+                if not all(straddles(x, y) for x, y in zip(ai, bi)):
+                    p_nonneg(ctx, sub)
+                    if d == 3 and len(Is) == 2:
+                        p_submargin(ctx, sub)
+                if not oracle_only and exact and rng.random() < 0.5:
+                    p_model_exact(ctx, sub)
+        for k in range(d):
+            lo, hi = draw_side(rng, rng.choice("-+"), exact, p_inf=0.2)
+            p_margin(ctx, dict(spec=spec, hist=hist, k=k, a=lo, b=hi))
+        p_inverse_tail(ctx, dict(spec=spec, hist=hist, i=rng.randrange(d), x=draw_point(rng, rng.choice([-1, 1]), exact)))
+
+
 def run(ctx, oracle_only=False, factor=1):
     rng = ctx.rng
     reps = ctx.n(14, 110) * factor
@@ -650,6 +916,8 @@ def run(ctx, oracle_only=False, factor=1):
         k = rng.randrange(d)
         p_additivity_nd(ctx, dict(spec=spec, I=I, a=a, b=b, k=k, c=split_point(rng, a[k], b[k], exact)))
         p_whole_line_nd(ctx, dict(spec=spec, I=I, a=a, b=b, k=rng.randrange(d)))
+    # --- operation histories on one live object (copula re-assigned / edited in place between evaluations) ---------------------
+    run_histories(ctx, oracle_only, factor)
     # --- end points / split points exactly at 0 (finding #30) -------------------------------------------------------
     for rep in range(ctx.n(40, 400) * factor):
         d = rng.choice([2, 3])
